@@ -194,7 +194,7 @@ func useHeader(k int) {
 	}
 }
 
-//verif:replace github.com/mastercactapus/proxyprotocol.Parse
+//verif:replace! github.com/mastercactapus/proxyprotocol.Parse
 func Repl_Parse(r *bufio.Reader) (proxyprotocol.Header, error) {
 	n, err := r.Discard(hdrLen)
 	_ = n
